@@ -1,6 +1,6 @@
 @unit cw3fixed
-@shim core.rs cw_utils.rs cw3deps.rs cw2.rs std_adapters.rs
-@properties C03 C05 C06
+@shim core.rs cw_utils.rs cw3deps.rs cw2.rs std_adapters.rs range.rs
+@properties C03 C05 C06 C20
 
 @include inc/cw3_proposal.vsi
 
@@ -912,3 +912,163 @@ pub proof fn lemma_c05_execute_once(st: Seq<Raw>, calls: Seq<Call>, i: int, j: i
         assert(prop(st[j], id)->Some_0.status == Status::Executed);
     }
 }
+
+// ===================================================================== C20: listings of cw3-fixed-multisig
+@struct packages/cw3/src/query.rs ProposalListResponse
+@struct packages/cw3/src/query.rs VoteListResponse
+@struct packages/cw3/src/query.rs VoterListResponse
+@const contracts/cw3-fixed-multisig/src/contract.rs MAX_LIMIT
+@const contracts/cw3-fixed-multisig/src/contract.rs DEFAULT_LIMIT
+@include inc/paging.vsi
+
+/// the response entry a stored proposal is shown as (status recomputed at the query block, C03)
+pub open spec fn shows(r: ProposalResponse<Empty>, id: u64, p: Proposal, b: &BlockInfo) -> bool {
+    r.id == id && r.status == spec_status(p, b) && r.msgs == p.msgs && r.expires == p.expires && r.proposer == p.proposer
+    && r.title == p.title && r.description == p.description && r.deposit == p.deposit
+}
+@fn contracts/cw3-fixed-multisig/src/contract.rs map_proposal [closures: 1]
+@requires
+    item is Ok ==> prop_wf(item->Ok_0.1)
+@ensures C20.map_proposal C03
+    match item { Ok((id, p)) => r is Ok && shows(r->Ok_0, id, p, block), Err(_) => r is Err }
+@closure 1 C20.map_proposal_closure
+    (res: ProposalResponse<Empty>)
+    requires prop_wf(__p1_0.1)
+    ensures shows(res, __p1_0.0, __p1_0.1, block)
+@end
+
+pub open spec fn u64_cursor(c: Option<u64>) -> Option<Seq<u8>> { match c { Some(x) => Some(u64_kb(x)), None => None } }
+pub open spec fn str_cursor(c: Option<String>) -> Option<Seq<u8>> { match c { Some(s) => Some(utf8(s@)), None => None } }
+/// every stored proposal is well-formed (from inv): needed because listings recompute the status
+pub proof fn lemma_all_stored_wf(s: Raw)
+    requires inv(s)
+    ensures forall|id: u64| #![trigger pkey(id)] prop(s, id) is Some ==> prop_wf(prop(s, id)->Some_0)
+{
+    assert forall|id: u64| prop(s, id) is Some implies prop_wf(prop(s, id)->Some_0) by { lemma_stored_wf(s, id); }
+}
+
+/// a listed entry that decodes as (u64 id, Proposal) is a well-formed proposal
+pub open spec fn entry_wf(e: Entry) -> bool {
+    forall|id: u64| #![trigger u64_kb(id)] e.0 == u64_kb(id) && Proposal::de(e.1) is Some ==> prop_wf(Proposal::de(e.1)->Some_0)
+}
+pub proof fn lemma_listed_wf(s: Raw)
+    requires inv(s)
+    ensures forall|i: int| 0 <= i < listing(s, "proposals"@, Seq::<u8>::empty(), false).len() ==> entry_wf(#[trigger] listing(s, "proposals"@, Seq::<u8>::empty(), false)[i])
+{
+    broadcast use ax_listing;
+    let l = listing(s, "proposals"@, Seq::<u8>::empty(), false);
+    assert forall|i: int| 0 <= i < l.len() implies entry_wf(#[trigger] l[i]) by {
+        assert(s.contains_key(path("proposals"@, full_key(Seq::<u8>::empty(), l[i].0, false))));
+        assert forall|id: u64| l[i].0 == #[trigger] u64_kb(id) && Proposal::de(l[i].1) is Some implies prop_wf(Proposal::de(l[i].1)->Some_0) by {
+            assert(s.contains_key(pkey(id)));
+            lemma_stored_wf(s, id);
+        }
+    }
+}
+
+@fn contracts/cw3-fixed-multisig/src/contract.rs list_proposals [closures: 1]
+@requires
+    inv(deps.storage.view())
+@ensures C20.list_proposals_page C03
+    r is Ok ==> ({
+        let pg = page(listing(deps.storage.view(), "proposals"@, Seq::<u8>::empty(), false), u64_cursor(start_after), limit);
+        r->Ok_0.proposals@.len() == pg.len() && forall|i: int| 0 <= i < pg.len() ==> u64_kb((#[trigger] r->Ok_0.proposals@[i]).id) == pg[i].0
+            && Proposal::de(pg[i].1) is Some && shows(r->Ok_0.proposals@[i], r->Ok_0.proposals@[i].id, Proposal::de(pg[i].1)->Some_0, &env.block)
+    })
+@eta "start_after.map" 1
+    __c: u64 -> Bound<u64>
+@closure_types 1
+    p: StdResult<(u64, Proposal)>
+@closure 1 C20.list_proposals_map
+    (res: StdResult<ProposalResponse<Empty>>)
+    requires p is Ok ==> prop_wf(p->Ok_0.1)
+    ensures match p { Ok((id, pp)) => res is Ok && shows(res->Ok_0, id, pp, &env.block), Err(_) => res is Err }
+@prefix
+    broadcast use cw3_axioms, ax_listing;
+    proof {
+        let s = deps.storage.view();
+        let l = listing(s, "proposals"@, Seq::<u8>::empty(), false);
+        lemma_listed_wf(s);
+        lemma_scan_all(l, match start_after { Some(c) => Some((u64_kb(c), false)), None => None }, None, Order::Ascending, |e: Entry| entry_wf(e));
+    }
+@end
+
+@fn contracts/cw3-fixed-multisig/src/contract.rs reverse_proposals [closures: 1]
+@requires
+    inv(deps.storage.view())
+@ensures C20.reverse_proposals_page C03
+    r is Ok ==> ({
+        let pg = page_desc(listing(deps.storage.view(), "proposals"@, Seq::<u8>::empty(), false), u64_cursor(start_before), limit);
+        r->Ok_0.proposals@.len() == pg.len() && forall|i: int| 0 <= i < pg.len() ==> u64_kb((#[trigger] r->Ok_0.proposals@[i]).id) == pg[i].0
+            && Proposal::de(pg[i].1) is Some && shows(r->Ok_0.proposals@[i], r->Ok_0.proposals@[i].id, Proposal::de(pg[i].1)->Some_0, &env.block)
+    })
+@eta "start_before.map" 1
+    __c: u64 -> Bound<u64>
+@closure_types 1
+    p: StdResult<(u64, Proposal)>
+@closure 1 C20.reverse_proposals_map
+    (res: StdResult<ProposalResponse<Empty>>)
+    requires p is Ok ==> prop_wf(p->Ok_0.1)
+    ensures match p { Ok((id, pp)) => res is Ok && shows(res->Ok_0, id, pp, &env.block), Err(_) => res is Err }
+@prefix
+    broadcast use cw3_axioms, ax_listing;
+    proof {
+        let s = deps.storage.view();
+        let l = listing(s, "proposals"@, Seq::<u8>::empty(), false);
+        lemma_listed_wf(s);
+        lemma_scan_all(l, None, match start_before { Some(c) => Some((u64_kb(c), false)), None => None }, Order::Descending, |e: Entry| entry_wf(e));
+    }
+@end
+
+@fn contracts/cw3-fixed-multisig/src/contract.rs list_votes [closures: 3]
+@ensures C20.list_votes_page
+    r is Ok ==> ({
+        let pg = page(listing(deps.storage.view(), "votes"@, u64_kb(proposal_id), true), str_cursor(start_after), limit);
+        r->Ok_0.votes@.len() == pg.len() && forall|i: int| 0 <= i < pg.len() ==> utf8((#[trigger] r->Ok_0.votes@[i]).voter@) == pg[i].0
+            && r->Ok_0.votes@[i].proposal_id == proposal_id && Ballot::de(pg[i].1) is Some
+            && r->Ok_0.votes@[i].vote == Ballot::de(pg[i].1)->Some_0.vote && r->Ok_0.votes@[i].weight == Ballot::de(pg[i].1)->Some_0.weight
+    })
+@closure_types 1
+    s: String
+@closure 1 C20.list_votes_cursor
+    (res: Bound<&Addr>)
+    ensures res.raw() == (utf8(s@), false)
+@closure_types 2
+    item: StdResult<(Addr, Ballot)>
+@closure 2 C20.list_votes_map
+    (res: StdResult<VoteInfo>)
+    ensures match item { Ok((a, b)) => res is Ok && res->Ok_0.voter@ == a@ && res->Ok_0.proposal_id == proposal_id && res->Ok_0.vote == b.vote && res->Ok_0.weight == b.weight, Err(_) => res is Err }
+@closure_types 3
+    __p3_0: (Addr, Ballot)
+@closure 3 C20.list_votes_entry
+    (res: VoteInfo)
+    ensures res.voter@ == __p3_0.0@ && res.proposal_id == proposal_id && res.vote == __p3_0.1.vote && res.weight == __p3_0.1.weight
+@prefix
+    broadcast use string_conv, ax_bytes_from_string;
+@end
+
+@fn contracts/cw3-fixed-multisig/src/contract.rs list_voters [closures: 3]
+@ensures C20.list_voters_page
+    r is Ok ==> ({
+        let pg = page(listing(deps.storage.view(), "voters"@, Seq::<u8>::empty(), false), str_cursor(start_after), limit);
+        r->Ok_0.voters@.len() == pg.len() && forall|i: int| 0 <= i < pg.len() ==> utf8((#[trigger] r->Ok_0.voters@[i]).addr@) == pg[i].0
+            && u64::de(pg[i].1) == Some(r->Ok_0.voters@[i].weight)
+    })
+@closure_types 1
+    s: String
+@closure 1 C20.list_voters_cursor
+    (res: Bound<&Addr>)
+    ensures res.raw() == (utf8(s@), false)
+@closure_types 2
+    item: StdResult<(Addr, u64)>
+@closure 2 C20.list_voters_map
+    (res: StdResult<VoterDetail>)
+    ensures match item { Ok((a, w)) => res is Ok && res->Ok_0.addr@ == a@ && res->Ok_0.weight == w, Err(_) => res is Err }
+@closure_types 3
+    __p3_0: (Addr, u64)
+@closure 3 C20.list_voters_entry
+    (res: VoterDetail)
+    ensures res.addr@ == __p3_0.0@ && res.weight == __p3_0.1
+@prefix
+    broadcast use string_conv, ax_bytes_from_string;
+@end
